@@ -33,6 +33,29 @@ func init() {
 	specsFor["C03"] = c03Specs
 	checks["C03"] = func(c *Ctx) *Result {
 		r := runSpecs(c, c03Specs(c.Tier))
+		if r.Found == nil {
+			sizes := []int{40, 150, 400}
+			if c.Tier == "thorough" {
+				sizes = []int{40, 150, 400, 1000}
+			}
+			total := 0
+			for _, n := range sizes {
+				for _, order := range []string{"ascending", "descending", "alternating"} {
+					if len(r.Raw) > 0 {
+						break
+					}
+					k, fail := bigTreeProofs(n, order)
+					total += k
+					if fail != "" {
+						rawViolation(c, r, fail, map[string]any{"keys": n, "order": order})
+					}
+				}
+			}
+			r.States += total
+			r.Transitions += total
+			r.Extra = map[string]any{"large_tree_supplement": map[string]any{"sizes": sizes, "orders": []string{"ascending", "descending", "alternating"}, "keys_and_gaps_proved": total,
+				"note": "fixed large scenarios (not exhaustive): two versions per tree (the second removes every third key and updates every fifth); every key and every gap of both versions is proved and verified with ics23 against the reference root, with all negative checks incl. the other version's root"}}
+		}
 		r.Assumptions = []string{
 			"proofs are verified with github.com/cosmos/ics23/go v0.11.0 (ics23.IavlSpec) against root hashes computed by the independent reference tree, not by iavl",
 			"values are non-empty: ics23's LeafOp.Apply rejects an empty value by specification ('leaf op needs value'), so no IAVL proof of an empty-valued key can verify under ics23.IavlSpec; the property's quantifier ranges over keys, not over empty values (empty values are covered by C01/C08)",
